@@ -294,6 +294,16 @@ func vfC10Assert(r *vfReqResult) {
 		vfCover("handled-ok")
 		vfAssert(nWH == 1, "handled-without-error-but-not-exactly-one-status")
 	}
+	// a well-formed activity that only lacks a required object/target, from an authenticated and
+	// not blocked sender, with no injected fault, is ANSWERED (400): it is not an error of the request
+	if enabled && w.authMode == 0 && w.nFaults == 0 && r.handled && r.bodyKind <= 12 && r.act != nil && r.idKind() == 0 && r.missingRequired() &&
+		(r.ep == vfEPPostOutbox || (r.ep == vfEPPostInbox && w.blockMode == 0)) {
+		if r.ep == vfEPPostOutbox {
+			vfAssert(r.err == nil, "missing-object-or-target-reported-as-an-error-instead-of-400")
+		} else {
+			vfAssert(vfOr(r.err == nil, w.inboxSeen(r.act.id)), "missing-object-or-target-reported-as-an-error-instead-of-400")
+		}
+	}
 	if !r.handled || r.err != nil || nWH != 1 {
 		return
 	}
